@@ -21,7 +21,8 @@ SHIFTS = [1, -1, 0x10, -0x10, 0x100, -0x100, 0x1000, -0x1000, 0x2F, 0xB000]
 BASE_ORG = 0x2000
 RENAMES = [["Q", "ZZ9", "LOOP1", "a1"], ["SU", "XS", "PCX", "DPY"], ["XS", "SU", "a1", "Q"], ["PCRL", "AB", "DD", "CCX"]]
 FORMATS = ["space1", "tabs", "space8", "nocomment", "comment.x", "comment.hostile", "mnem.lower", "mnem.mixed", "trailing.ws"]
-ABS_TAGS = {"ext.lbl", "ext.lbl.p", "ext.lbl+1", "imm.lbl", "imm.lbl.p", "extind.lbl", "idx.lbl", "idx.lbl.p", "ind.lbl"}
+ABS_TAGS = {"ext.lbl", "ext.lbl.p", "ext.lbl+1", "imm.lbl", "imm.lbl.p", "extind.lbl", "idx.lbl", "idx.lbl.p", "ind.lbl", "imm.lbl+1",
+            "idx.lbl+1", "extind.lbl+1"}
 LABEL_RE = re.compile(r"\bL(\d)\b")
 
 
@@ -43,7 +44,8 @@ def base_programs(tier):
 
 
 def cases(tier, seed):
-    suffixes = [t[0] for t in c02.T if not t[0].startswith("org")]
+    # dir.lbl (<label) is invalid by itself for labels above $FF, which every label of a program at $2000 is
+    suffixes = [t[0] for t in c02.T if not t[0].startswith("org") and t[0] != "dir.lbl"]
     for case in base_programs(tier):
         if "UNDEF" in case["bind"]:
             continue
